@@ -429,6 +429,16 @@ def run(tier: str) -> int:
         if r["violated"] is None:
             raise tlc.MachineryError(f"vacuity: {cfg} ({what}) not refuted")
         chk.add_mc(r, f"non-vacuity: {what} refuted by {r['violated']}")
+    # ---- the same protocol without any bound on sessions / batches (finite abstraction: sequence numbers mod 4, epoch bit) ----
+    ra = tlc.model_check("RLExchangeAbs", "MC_C10_abs.cfg", workers=8, timeout=900)
+    if not ra["ok"]:
+        raise tlc.MachineryError(f"unbounded abstraction violates {ra['violated']}:\n{ra.get('out', '')[-2000:]}")
+    chk.add_mc(ra, "ANY number of sessions and batches (complete finite state graph of RLExchangeAbs): no phantom learn, no stale action, "
+                   "attribution, nothing lost, no leftover, queues bounded, no deadlock, progress under weak fairness")
+    rp = tlc.model_check("RLExchangeAbs", "MC_C10_abs_pinned.cfg", workers=4, timeout=600)
+    if rp["violated"] is None:
+        raise tlc.MachineryError("vacuity: pinned protocol not refuted in the unbounded abstraction")
+    chk.add_mc(rp, f"non-vacuity: pinned protocol refuted in the abstraction by {rp['violated']}")
     # ---- spec -> code: schedules from the state graph ----
     nodes, edges, inits, _stats = tlc.dump_graph("MC_RLExchange", "MC_C10_fixed.cfg")
     g = Graph(nodes, edges, inits)
